@@ -190,7 +190,15 @@ func (w *WAL) Read() ([]types.Entry, error) {
 		// data length
 		var n int64
 		if err = binary.Read(reader, binary.LittleEndian, &n); err != nil {
+			if errors.Is(err, io.ErrUnexpectedEOF) {
+				// torn tail: the last write was cut short by a crash, it was never synced nor acknowledged
+				break
+			}
 			return nil, err
+		}
+		if n < 0 || n > int64(reader.Len()) {
+			// torn tail
+			break
 		}
 
 		// data body
